@@ -68,6 +68,15 @@ def _check_window(batch, j, rows, h, inter):
                 raise Mismatch(f"reduced view: {f} {got} differs from the window's {want}")
 
 
+def _values(ep, t, end):
+    """add_sample arguments for step t of episode ep; end "both" = terminated AND truncated on the same step (what
+    gymnasium's TimeLimit reports when the wrapped environment terminates on the step that reaches the limit)"""
+    v = bufkit.st_values(ep, t, "term" if end == "both" else end)
+    if end == "both":
+        v["truncated"] = 1
+    return v
+
+
 def _observers(ad):
     """read-only public calls: whatever they return, they must leave the buffer as it is (the projection compared
     after the step, and every later sample, see a write)"""
@@ -97,12 +106,12 @@ def step(ad: SubtrajAdapter, op, args, exp, pre, post):
                 ad.mt.select_task(1)
                 ad.mt.add_sample(**bufkit.st_values(500 + k // 3, k % 3, "term" if k % 3 == 2 else "cont"))
                 ad.mt.select_task(0)
-            ad.mt.add_sample(**bufkit.st_values(ep, t, end))
+            ad.mt.add_sample(**_values(ep, t, end))
             want = ad.foreign + ad.foreign // 3
             if len(ad.mt.buffers[1]) != min(want, ad.mt.buffers[1].buffer_size):
                 raise Mismatch(f"task 1 holds {len(ad.mt.buffers[1])} rows after {ad.foreign} additions of its own (expected {min(want, ad.mt.buffers[1].buffer_size)})", code="other_task_length")
         else:
-            buf.add_sample(**bufkit.st_values(ep, t, end))
+            buf.add_sample(**_values(ep, t, end))
     elif op == "Sample":
         s, h, inter = args["s"], args["h"], args["inter"]
         rng = bufkit.StubRng()
@@ -213,7 +222,7 @@ def merge(rep, out):
     return (out["edges"], out["nontrivial"]) if out["edges"] else None
 
 
-def config_job(n, h, m, prio, prio_vals, max_batch, invs, label, real_rng, seed, workers=4, mt=False, unit=1, props=()):
+def config_job(n, h, m, prio, prio_vals, max_batch, invs, label, real_rng, seed, workers=4, mt=False, unit=1, props=(), both=False):
     """One Subtraj configuration: TLC property run, generation run, transition-coverage replay."""
     out = {"tlc": [], "violations": [], "edges": 0, "nontrivial": 0, "sample": None}
 
@@ -226,14 +235,39 @@ def config_job(n, h, m, prio, prio_vals, max_batch, invs, label, real_rng, seed,
     rep.violation = lambda key, what, replay=None: out["violations"].append((key, what, replay))
     rep.sample = lambda s: out.__setitem__("sample", s)
     rep.traces = 0
-    res = _run_config(rep, n, h, m, prio, prio_vals, max_batch, invs, label, real_rng, workers, mt, unit, props)
+    res = _run_config(rep, n, h, m, prio, prio_vals, max_batch, invs, label, real_rng, workers, mt, unit, props, both)
     if res:
         out["edges"], out["nontrivial"] = res
     return out
 
 
-def _run_config(rep, n, h, m, prio, prio_vals=(1,), max_batch=1, invs=(), label="", real_rng=True, workers=16, mt=False, unit=1, props=()):
+def job(kind, args):
+    """Pool entry point of C04: "config" = config_job(*args); "deep" = model-only TLC run (N, H, adds, kinds, workers) with the
+    C04 invariants on longer histories; "canaries" = canaries().  All return config_job's record."""
+    if kind == "config":
+        return config_job(*args)
+    out = {"tlc": [], "violations": [], "edges": 0, "nontrivial": 0, "sample": None}
+    if kind == "deep":
+        n, h, m, kinds, workers = args
+        c = dict(N=n, H=h, MaxAdds=m, PRIO=False, PrioVals={1}, MaxBatch=1, EMIT=False)
+        if kinds == 4:
+            c["Ends"] = tlc.Subst("EndsBoth")
+        r = tlc.run("Subtraj", tlc.cfg_text(constants=c, invariants=INV_C04), tag="stdeep", timeout=1500, workers=workers)
+        out["tlc"].append({"name": f"Subtraj model-only N={n} H={h} adds<={m} kinds={kinds}", "distinct": r.distinct, "generated": r.generated,
+                           "depth": r.depth, "wall_s": round(r.wall_s, 1)})
+        if not r.ok:
+            out["violations"].append((f"spec:Subtraj:{r.violated}", f"design-level violation {r.violated}", r.error_trace))
+    elif kind == "canaries":
+        canaries(*args)
+    else:  # pragma: no cover
+        raise AssertionError(kind)
+    return out
+
+
+def _run_config(rep, n, h, m, prio, prio_vals=(1,), max_batch=1, invs=(), label="", real_rng=True, workers=16, mt=False, unit=1, props=(), both=False):
     c = dict(N=n, H=h, MaxAdds=m, PRIO=prio, PrioVals=set(prio_vals), MaxBatch=max_batch, EMIT=False)
+    if both:  # definition override: the additions include the step that is terminated and truncated at once
+        c["Ends"] = tlc.Subst("EndsBoth")
     if unit != 1:  # definition override: the initial tracked maximum is `unit` model units (C08: priorities below 1.0)
         c["PrioDefault"] = tlc.Subst(f"PrioDefault{unit}")
     r = tlc.run("Subtraj", tlc.cfg_text(constants=c, invariants=list(invs), properties=["EnvTermSticky"] + list(props)), coverage=True, tag=f"st{n}{h}", workers=workers)
@@ -246,6 +280,16 @@ def _run_config(rep, n, h, m, prio, prio_vals=(1,), max_batch=1, invs=(), label=
     g = tlc.run("Subtraj", tlc.cfg_text(constants=c), workers=1, tag=f"stgen{n}{h}", timeout=1800)
     G = graph.Graph(g.emitted)
     root = G.roots()[0]
+    # the situations this configuration is there for must be in the graph that is replayed (else the verifier is broken)
+    adds_ = [e for e in g.emitted if e["op"] == "Add"]
+    if both and not any(e["args"][0] == "both" and e["pre"]["len"] > 0 for e in adds_):
+        raise tlc.MachineryError(f"Subtraj N={n} H={h}: no addition of a terminated-and-truncated step in the generated graph")
+    if n == h + 1 and m >= h + 2:
+        # smallest capacity: an episode longer than H ends (the start enabled by that step is the successor row's slot) ...
+        long_end = [e for e in adds_ if e["args"][0] != "cont" and e["pre"]["epT"] >= h]
+        # ... on a full, wrapped buffer as well
+        if not long_end or not any(e["pre"]["len"] == n for e in long_end):
+            raise tlc.MachineryError(f"Subtraj N={n} H={h}: no episode longer than the horizon ends at capacity H + 1 in the generated graph")
 
     def stp(o, op, a, e, pre, post):
         step(o, op, a, e, pre, post)
@@ -276,15 +320,29 @@ def _run_config(rep, n, h, m, prio, prio_vals=(1,), max_batch=1, invs=(), label=
     return res["edges_tested"], nontrivial
 
 
-def canaries():
+def canaries(workers=16):
     c = dict(N=5, H=2, MaxAdds=9, PRIO=False, PrioVals={1}, MaxBatch=1, EMIT=False)
-    r = tlc.run("Subtraj", tlc.cfg_text(next="NextBadTrunc", constants=c, invariants=["WindowsValid"]), tag="stbad1")
+    r = tlc.run("Subtraj", tlc.cfg_text(next="NextBadTrunc", constants=c, invariants=["WindowsValid"]), tag="stbad1", workers=workers)
     if r.violated != "WindowsValid":
         raise tlc.MachineryError("canary: truncated-tail deviation not refuted by WindowsValid")
     c = dict(N=6, H=3, MaxAdds=9, PRIO=False, PrioVals={1}, MaxBatch=1, EMIT=False)
-    r = tlc.run("Subtraj", tlc.cfg_text(constants=c, invariants=["WindowsValidBadMod"]), tag="stbad2")
+    r = tlc.run("Subtraj", tlc.cfg_text(constants=c, invariants=["WindowsValidBadMod"]), tag="stbad2", workers=workers)
     if r.violated != "WindowsValidBadMod":
         raise tlc.MachineryError("canary: modulo-capacity windows not refuted")
+    # (c) termination taking precedence over truncation for a step with both flags: refuted only if such steps are explored
+    c = dict(N=3, H=1, MaxAdds=4, PRIO=False, PrioVals={1}, MaxBatch=1, EMIT=False)
+    r = tlc.run("Subtraj", tlc.cfg_text(next="NextBadBoth", constants=c, invariants=["WindowsValid"]), tag="stbad3", workers=workers)
+    if r.violated != "WindowsValid":
+        raise tlc.MachineryError("canary: admissible tail of a terminated-and-truncated episode not refuted by WindowsValid")
+    # (d) successor row's slot cleared before the start H behind is enabled: differs only at capacity H + 1
+    c = dict(N=3, H=2, MaxAdds=5, PRIO=False, PrioVals={1}, MaxBatch=1, EMIT=False)
+    r = tlc.run("Subtraj", tlc.cfg_text(next="NextBadEarlyClear", constants=c, invariants=["MaskOnlyWritten"]), tag="stbad4", workers=workers)
+    if r.violated != "MaskOnlyWritten":
+        raise tlc.MachineryError("canary: admissible successor row at capacity H + 1 not refuted by MaskOnlyWritten")
+    c["N"] = 4
+    r = tlc.run("Subtraj", tlc.cfg_text(next="NextBadEarlyClear", constants=c, invariants=list(INV_C04)), tag="stbad5", workers=workers)
+    if not r.ok:
+        raise tlc.MachineryError("canary: the early-clear order is refuted at capacity H + 2, where it must be equivalent")
 
 
 def replay(path, pid):
